@@ -164,7 +164,9 @@ STREAM = r'''
         let sink_err: u8 = kani::any();
         let mut got: [u8; 3] = [0; 3];
         let mut n: usize = 0;
+        let mut calls: usize = 0;
         let sink = |x: u8| -> Result<(), ErrB> {
+            calls += 1;
             if n == fail_at as usize {
                 return Err(ErrB(sink_err));
             }
@@ -208,6 +210,8 @@ STREAM = r'''
         }
         assert!(n == wn);
         assert!(got == want);
+        // nothing is handed to the consumer after it has failed
+        assert!(calls == wn + if verdict == 2 { 1 } else { 0 });
         match verdict {
             0 => assert!(matches!(r, Ok(()))),
             1 => assert!(matches!(r, Err(StreamError::SourceError(ErrA(e))) if e == ev)),
